@@ -27,6 +27,7 @@ inductive Err
   | overflow       -- OverflowError in `_inc_iv_counter` (64-bit invocation counter exhausted)
   | decompress     -- zlib.error
   | zeroDiv        -- ZeroDivisionError (block size 0)
+  | ignoringRekey  -- SSHException("Remote transport is ignoring rekey requests")
   deriving Repr, DecidableEq
 
 structure Prims where
@@ -196,6 +197,7 @@ structure RecvOut (p : Prims) where
   st : Receiver p
   msg : Msg
   auth : Option Auth
+  raw : Nat             -- `raw_packet_size = packet_size + self.__mac_size_in + 4` (input of the rekey accounting)
 
 /-- `self.__compress_engine_in(payload)` when a decompressor is set -/
 def decompIn {p : Prims} (zs : Option p.ZSt) (payload : Bytes) : Except Err (Option p.ZSt × Bytes) :=
@@ -220,7 +222,7 @@ def finish {p : Prims} (r : Receiver p) (c : InC p) (psize : Nat) (packet : Byte
       | [] => .error .indexError
       | cmd :: body =>
         .ok { st := { r with ciph := c, decomp := z', seq := nextSeq r.seq },
-              msg := { cmd := cmd, payload := body, seqno := r.seq }, auth := a }
+              msg := { cmd := cmd, payload := body, seqno := r.seq }, auth := a, raw := psize + r.macLen + 4 }
 
 def liftE {α : Type} : Except Err α → Rd α
   | .ok a => .ret a
@@ -473,27 +475,108 @@ def sendAllW {p : Prims} (s : Sender p) : List (Op p) → List (List SendEv) →
   | .resetSeq :: ops, scheds => sendAllW { s with seq := 0 } ops scheds
   | .kexDone :: ops, scheds => sendAllW { s with kexDone := true } ops scheds
 
+/-- what the rekey accounting of `read_message` / `set_inbound_cipher` sees, in order -/
+inductive Acct where
+  | pkt (raw : Nat)      -- a packet of `raw` bytes was decoded
+  | switch               -- the keys were switched (counters reset, request fulfilled)
+  deriving Repr, DecidableEq
+
 /-- result of running the receiver: delivered messages, verified records, how it stopped -/
 structure RecvLog (p : Prims) where
   msgs : List Msg
   auths : List Auth
+  accts : List Acct
   stop : Option Err          -- `none`: all ops done
   st : Option (Receiver p)   -- final state when not stopped by an error
   rest : Bytes
 
 /-- the receiver mirrors the op list: one `read_message` per `msg`, the switches in the same places -/
 def recvAll {p : Prims} (r : Receiver p) : List (Op p) → Bytes → RecvLog p
-  | [], buf => { msgs := [], auths := [], stop := none, st := some r, rest := buf }
+  | [], buf => { msgs := [], auths := [], accts := [], stop := none, st := some r, rest := buf }
   | .msg _ _ :: ops, buf =>
     match runBuf (readMessage r) buf with
-    | .err e => { msgs := [], auths := [], stop := some e, st := none, rest := buf }
+    | .err e => { msgs := [], auths := [], accts := [], stop := some e, st := none, rest := buf }
     | .ok o rest =>
       let l := recvAll o.st ops rest
-      { l with msgs := o.msg :: l.msgs, auths := o.auth.toList ++ l.auths }
-  | .setCipher b m _ _ ci :: ops, buf => recvAll (r.setCipher b m ci) ops buf
+      { l with msgs := o.msg :: l.msgs, auths := o.auth.toList ++ l.auths, accts := .pkt o.raw :: l.accts }
+  | .setCipher b m _ _ ci :: ops, buf =>
+    let l := recvAll (r.setCipher b m ci) ops buf
+    { l with accts := .switch :: l.accts }
   | .setComp _ zi :: ops, buf => recvAll { r with decomp := zi } ops buf
   | .resetSeq :: ops, buf => recvAll { r with seq := 0 } ops buf
   | .kexDone :: ops, buf => recvAll { r with kexDone := true } ops buf
+
+/-! ## rekey accounting of `read_message` (counters, the receiver's own rekey request, the overflow allowance) -/
+
+/-- `REKEY_PACKETS`, `REKEY_BYTES`, `REKEY_PACKETS_OVERFLOW_MAX`, `REKEY_BYTES_OVERFLOW_MAX` -/
+structure Limits where
+  rekeyPackets : Nat
+  rekeyBytes : Nat
+  ovPackets : Nat
+  ovBytes : Nat
+  deriving Repr, DecidableEq
+
+/-- the values shipped in `class Packetizer` (tied to the source in Props/C01) -/
+def shippedLimits : Limits := ⟨536870912, 536870912, 536870912, 536870912⟩
+
+structure RekeySt where
+  recvPackets : Nat := 0
+  recvBytes : Nat := 0
+  ovPackets : Nat := 0
+  ovBytes : Nat := 0
+  need : Bool := false        -- `__need_rekey`
+  deriving Repr, DecidableEq
+
+/-- the "check for rekey" tail of `read_message` -/
+def account (L : Limits) (k : RekeySt) (raw : Nat) : Except Err RekeySt :=
+  let k1 := { k with recvBytes := k.recvBytes + raw, recvPackets := k.recvPackets + 1 }
+  if k.need then
+    -- we've asked to rekey: give them some packets to comply before dropping the connection
+    let k2 := { k1 with ovBytes := k1.ovBytes + raw, ovPackets := k1.ovPackets + 1 }
+    if k2.ovPackets ≥ L.ovPackets ∨ k2.ovBytes ≥ L.ovBytes then .error .ignoringRekey else .ok k2
+  else if k1.recvPackets ≥ L.rekeyPackets ∨ k1.recvBytes ≥ L.rekeyBytes then
+    .ok { k1 with ovBytes := 0, ovPackets := 0, need := true }      -- only ask once for rekeying
+  else .ok k1
+
+/-- `set_inbound_cipher` resets the counters; with the outbound switch of the same rekey the request is fulfilled -/
+def RekeySt.switched (_ : RekeySt) : RekeySt := {}
+
+def accountAll (L : Limits) : RekeySt → List Acct → Except Err RekeySt
+  | k, [] => .ok k
+  | k, .pkt raw :: t =>
+    match account L k raw with
+    | .error e => .error e
+    | .ok k' => accountAll L k' t
+  | k, .switch :: t => accountAll L k.switched t
+
+/-- `recvAll` with the accounting: a message is delivered only if the accounting after it did not raise -/
+def recvAllK {p : Prims} (L : Limits) (r : Receiver p) (k : RekeySt) : List (Op p) → Bytes → List Msg × Option Err
+  | [], _ => ([], none)
+  | .msg _ _ :: ops, buf =>
+    match runBuf (readMessage r) buf with
+    | .err e => ([], some e)
+    | .ok o rest =>
+      match account L k o.raw with
+      | .error e => ([], some e)
+      | .ok k' =>
+        let l := recvAllK L o.st k' ops rest
+        (o.msg :: l.1, l.2)
+  | .setCipher b m _ _ ci :: ops, buf => recvAllK L (r.setCipher b m ci) k.switched ops buf
+  | .setComp _ zi :: ops, buf => recvAllK L { r with decomp := zi } k ops buf
+  | .resetSeq :: ops, buf => recvAllK L { r with seq := 0 } k ops buf
+  | .kexDone :: ops, buf => recvAllK L { r with kexDone := true } k ops buf
+
+/-- the accounting trace of the sender's history: the sizes of its wire packets, and its key switches -/
+def sentAccts {p : Prims} (s : Sender p) : List (Op p) → List Acct
+  | [] => []
+  | .msg d rnd :: ops =>
+    match sendMessage s d rnd with
+    | .error _ => []
+    | .ok o => .pkt o.wire.length :: sentAccts o.st ops
+  | .setCipher b m sd co _ :: ops => .switch :: sentAccts (s.setCipher b m sd co) ops
+  | .setComp zo _ :: ops => sentAccts { s with comp := zo } ops
+  | .resetSeq :: ops => sentAccts { s with seq := 0 } ops
+  | .kexDone :: ops => sentAccts { s with kexDone := true } ops
 
 /-- the same over a fragmenting socket -/
 def recvAllSock {p : Prims} (r : Receiver p) : List (Op p) → Sock → List Msg × Option Err × Sock
